@@ -39,7 +39,7 @@ class C04a(Obligation):
     def configs(self, tier):
         if tier == 'quick':
             return [dict(S=4, L=2), dict(S=3, L=3)]
-        return [dict(S=6, L=3), dict(S=5, L=4)]
+        return [dict(S=5, L=2), dict(S=4, L=3), dict(S=4, L=2)]
 
     def scenario(self, ctx, cfg):
         string = ctx.str('string', maxlen=cfg['S'], alphabet=ALPHABET)
@@ -158,7 +158,7 @@ class C04c(Obligation):
     z3_timeout = 8.0
 
     def configs(self, tier):
-        return [dict(m=2, N=3)] if tier == 'quick' else [dict(m=2, N=4), dict(m=3, N=2)]
+        return [dict(m=2, N=3)] if tier == 'quick' else [dict(m=2, N=3), dict(m=3, N=2)]
 
     def scenario(self, ctx, cfg):
         ctx.patch(settings, 'case_insensitive_completion', True)
